@@ -1,5 +1,6 @@
 import CheetahModel.Proofs.SplitProofs
 import CheetahModel.Proofs.BmadxProofs
+import CheetahModel.Proofs.Tables
 /-!
 # C16 — splitting an element preserves its length and its action
 `Elem.split` models `Drift.split`, `Quadrupole.split`, the correctors' `split` (at least one piece,
@@ -61,5 +62,9 @@ theorem unsplittable (res : ℝ) (p : DipoleP ℝ) (L kk mx my V ph f : ℝ) :
 
 /-! non-vacuity -/
 example : numSplits 1.0 0.3 ≠ 0 := numSplits_pos _ _ (by norm_num) (by norm_num)
+
+/-- every class whose `split` builds pieces forwards all constructor parameters except the name: the pieces
+keep dtype, device, tracking method, number of steps, tilt, misalignment (table regenerated from /repo) -/
+theorem split_forwards_everything : Gen.classes.all Gen.splitForwardsAll = true := by decide
 
 end C16
